@@ -318,6 +318,9 @@ pub const FIXED_POSIX: &[&str] = &[
     // DST with the same offset as standard time (what zic writes for a SAVE 0 rule): only flag and abbreviation change
     "XST3XDT3,M3.2.0,M11.1.0",
     "<+02>-2<+02s>-2,M10.1.0,M3.3.0/3",
+    // clocks go back to 00:00 (the day starts twice) and forward from 00:00 (Havana style)
+    "CST5CDT,M3.2.0/0,M11.1.0/1",
+    "<-01>1<+00>0,M3.5.0/0,M10.5.0/1",
 ];
 
 /// Instants of interest for a zone: around every explicit transition and the
